@@ -308,7 +308,7 @@ PROPS["C37"] = dict(
          "(value-level line arithmetic; not audited). Trusted: rustc MIR (pre-drop-elaboration Drop terminators), emmyfacts.")
 
 PROPS["C22"] = dict(
-    module="c22", func="run", level="other", crates=["emmylua_parser"],
+    module="c22", func="run", level="other", crates=["emmylua_parser", "emmylua_code_analysis"],
     technique="CFG dominance of the line lookup + provenance of the column clamp bound (whole text vs the line's content) + bounds-fact audit of LineIndex",
     text="Decides three structural clauses of position conversion: a position on a missing line converts to nothing (the line-start lookup "
          "dominates everything else and is itself bounds-tested), a column past the end of its line is clamped by that line's own content "
